@@ -581,9 +581,11 @@ def route_checks(ctx: Ctx, tabs):
 
 # ====================================================================== main
 def run(ctx: Ctx):
-    # coqchk (thorough tier) re-checks the theory (C02_props and everything it depends on). The generated cover theorem depends on
-    # every per-grid vm_compute certificate; re-evaluating those in coqchk's own VM takes > 25 min, so it is left to the kernel (coqc).
-    ctx.coqchk_skip = ("C02_cover_props",)
+    # coqchk (thorough tier): re-evaluating the vm_compute steps of C02_proofs (and hence C02_props and the generated cover theorem with
+    # its per-grid certificates) in coqchk's own VM does not finish in 40 min, so those are left to the kernel (coqc); the model,
+    # Legendre, morphism, summation and generated-data files they rest on are re-checked by coqchk on their own.
+    ctx.coqchk_skip = ("C02_cover_props", "C02_props")
+    ctx.coqchk_extra = ("C02_model", "C02_legendre", "C02_morph", "C02_sums", "C02_gen")
     import importlib
 
     import grid.angular as ga
